@@ -35,9 +35,12 @@ class Check:
         self.floors = {}
         self.controls = {}
         self.info = []
+        self.cfg = None
 
     # a rule instance that was evaluated; ok=False registers a violation
     def inst(self, rule, instance, ok, detail="", loc=None, nontrivial=True, sample=None):
+        if self.cfg and self.cfg != "default":
+            instance = "%s[%s]" % (instance, self.cfg)
         self.instances.append((rule, instance, bool(ok), bool(nontrivial)))
         if not ok:
             self.violation(rule, instance, detail, loc)
